@@ -1,5 +1,5 @@
 import Tahoe.Base.DrvUtil
-import Tahoe.BackupDb
+import Tahoe.BackupDb.Session
 /-! Driver for C42.  One line = one history of `BackupDB_v2` calls on a fresh database:
 
       hist <op> <op> …
@@ -7,6 +7,9 @@ import Tahoe.BackupDb
     op ::= cf:<path>:<size>:<mtime>:<ctime>:<ts 0|1>:<now>:<rnd>    check_file → `<filecap|N>,<should_check T|F>,<was_uploaded()|F>`
          | up:<cap>:<path>:<mtime>:<ctime>:<size>:<now>             did_upload_file → `ok`
          | upr:<k>:<cap>:<now>                                      FileResult(of the k-th cf of this line, 0-based).did_upload → `ok`
+         | hlr:<k>:<now>                                            FileResult(k-th cf).did_check_healthy → `ok`
+         | dcr:<k>:<dircap>:<now>                                   DirectoryResult(k-th cd).did_create → `ok`
+         | dhr:<k>:<now>                                            DirectoryResult(k-th cd).did_check_healthy → `ok`
          | hl:<cap>:<now>                                           did_check_file_healthy → `ok`
          | cd:<entries>:<now>:<rnd>                                 check_directory → `<hashed data>,<dircap|N>,<T|F>,<was_created()|F>`
          | dc:<dircap>:<entries>:<now>                              DirectoryResult(of check_directory(entries)).did_create → `ok`
@@ -51,36 +54,57 @@ def dump (db : DB) : String :=
     (fun (k, r) => s!"{hexOfBytes k}/{hexOfBytes r.dircap}/{r.uploaded}/{r.checked}")
   s!"lf[{"|".intercalate lf}]caps[{"|".intercalate caps}]lu[{"|".intercalate lu}]dirs[{"|".intercalate dirs}]"
 
-def stepOp (db : DB) (res : List FileResult) (op : String) : Option (DB × List FileResult × String) :=
+abbrev S := Sess Tahoe.BackupDb.Bytes
+
+/-- every op is one `sstep` of the session model (`Tahoe/BackupDb/Session.lean`); direct API calls go through `SOp.api` -/
+def parseOp (s : S) (op : String) : Option (SOp × (S → String)) :=
+  let ok : S → String := fun _ => "ok"
   match op.splitOn ":" with
   | ["cf", p, sz, mt, ct, ts, now, rnd] => do
     let ts ← (if ts == "1" then some true else if ts == "0" then some false else none)
-    let (db', r) := checkFile db (← bytesOfHex p) ⟨← sz.toInt?, ← mt.toInt?, ← ct.toInt?⟩ ts (← now.toInt?) (← rnd.toNat?)
-    pure (db', res ++ [r], s!"{hexOpt r.filecap},{tf r.shouldCheck},{hexOrF r.wasUploaded}")
+    pure (.check (← bytesOfHex p) ⟨← sz.toInt?, ← mt.toInt?, ← ct.toInt?⟩ ts (← now.toInt?) (← rnd.toNat?),
+          fun s' => match s'.fres.getLast? with
+            | some r => s!"{hexOpt r.filecap},{tf r.shouldCheck},{hexOrF r.wasUploaded}"
+            | none => "bad-op")
   | ["up", cap, p, mt, ct, sz, now] => do
-    pure (didUploadFile db (← bytesOfHex cap) (← bytesOfHex p) (← mt.toInt?) (← ct.toInt?) (← sz.toInt?) (← now.toInt?), res, "ok")
+    pure (.api (.didUpload (← bytesOfHex cap) (← bytesOfHex p) (← mt.toInt?) (← ct.toInt?) (← sz.toInt?) (← now.toInt?)), ok)
   | ["upr", k, cap, now] => do
-    let r ← res[(← k.toNat?)]?
-    pure (r.didUpload db (← bytesOfHex cap) (← now.toInt?), res, "ok")
-  | ["hl", cap, now] => do pure (didCheckFileHealthy db (← bytesOfHex cap) (← now.toInt?), res, "ok")
+    let k ← k.toNat?
+    let _ ← s.fres[k]?
+    pure (.uploadVia k (← bytesOfHex cap) (← now.toInt?), ok)
+  | ["hlr", k, now] => do
+    let k ← k.toNat?
+    let _ ← s.fres[k]?
+    pure (.healthyVia k (← now.toInt?), ok)
+  | ["hl", cap, now] => do pure (.api (.didCheckHealthy (← bytesOfHex cap) (← now.toInt?)), ok)
   | ["cd", es, now, rnd] => do
-    let es ← parseEntries es
-    let r := checkDirectory id db es (← now.toInt?) (← rnd.toNat?)
-    pure (db, res, s!"{hexOfBytes r.dirhash},{hexOpt r.dircap},{tf r.shouldCheck},{hexOrF r.wasCreated}")
-  | ["dc", d, es, now] => do
-    pure (didCreateDirectory db (← bytesOfHex d) (dirData (← parseEntries es)) (← now.toInt?), res, "ok")
-  | ["dh", d, now] => do pure (didCheckDirectoryHealthy db (← bytesOfHex d) (← now.toInt?), res, "ok")
-  | ["dump"] => some (db, res, dump db)
+    pure (.checkDir (← parseEntries es) (← now.toInt?) (← rnd.toNat?),
+          fun s' => match s'.dres.getLast? with
+            | some (r, _) => s!"{hexOfBytes r.dirhash},{hexOpt r.dircap},{tf r.shouldCheck},{hexOrF r.wasCreated}"
+            | none => "bad-op")
+  | ["dcr", k, d, now] => do
+    let k ← k.toNat?
+    let _ ← s.dres[k]?
+    pure (.createVia k (← bytesOfHex d) (← now.toInt?), ok)
+  | ["dhr", k, now] => do
+    let k ← k.toNat?
+    let _ ← s.dres[k]?
+    pure (.dirHealthyVia k (← now.toInt?), ok)
+  | ["dc", d, es, now] => do pure (.api (.didCreateDir (← bytesOfHex d) (← parseEntries es) (← now.toInt?)), ok)
+  | ["dh", d, now] => do pure (.api (.didCheckDirHealthy (← bytesOfHex d) (← now.toInt?)), ok)
   | _ => none
 
-def runOps (db : DB) (res : List FileResult) (acc : List String) : List String → Option (List String)
+def runOps (s : S) (acc : List String) : List String → Option (List String)
   | [] => some acc.reverse
-  | op :: rest => match stepOp db res op with
-    | some (db', res', out) => runOps db' res' (out :: acc) rest
+  | "dump" :: rest => runOps s (dump s.db :: acc) rest
+  | op :: rest => match parseOp s op with
+    | some (sop, out) =>
+      let s' := sstep id s sop
+      runOps s' (out s' :: acc) rest
     | none => none
 
 def handle : List String → String
-  | "hist" :: ops => match runOps {} [] [] ops with
+  | "hist" :: ops => match runOps {} [] ops with
     | some outs => ";".intercalate outs
     | none => "bad-op"
   | _ => "bad-op"
